@@ -310,6 +310,8 @@ impl GroupStorage for MdkSqliteStorage {
                 .map_err(into_group_err)?;
 
             let result: Result<(), GroupError> = (|| {
+                #[cfg(feature = "verif-hooks")]
+                crate::verif_hooks::tick_in_tx("tx:replace_group_relays", line!());
                 conn.execute(
                     "DELETE FROM group_relays WHERE mls_group_id = ?",
                     params![group_id.as_slice()],
@@ -317,12 +319,16 @@ impl GroupStorage for MdkSqliteStorage {
                 .map_err(into_group_err)?;
 
                 for relay_url in &relays {
+                    #[cfg(feature = "verif-hooks")]
+                    crate::verif_hooks::tick_in_tx("tx:replace_group_relays", line!());
                     conn.execute(
                         "INSERT INTO group_relays (mls_group_id, relay_url) VALUES (?, ?)",
                         params![group_id.as_slice(), relay_url.as_str()],
                     )
                     .map_err(into_group_err)?;
                 }
+                #[cfg(feature = "verif-hooks")]
+                crate::verif_hooks::tick_in_tx("tx:replace_group_relays", line!());
                 Ok(())
             })();
 
